@@ -11,7 +11,7 @@ import (
 )
 
 func init() {
-	register(&Rule{ID: "SPEC-relational", Props: []string{"C05", "C01"}, Min: 14,
+	register(&Rule{ID: "SPEC-relational", Props: []string{"C05", "C01"}, Min: 14, SubsumedBy: "SPEC-comparison-eval",
 		Doc: "S (ES5 §11.8.1-11.8.4, §11.8.5): each relational arm of calculateComparison performs the abstract comparison with the operands in the order the clause prescribes (< : x,y LeftFirst=true; > : y,x false; <= : y,x false; >= : x,y true) and maps its three outcomes as prescribed (< and >: only true -> true; <= and >=: only false -> true; undefined, i.e. a NaN operand, -> false in all four). The outcome mapping is evaluated at analysis time over the three-valued result, whatever the spelling (table lookup, ==, !=). Inside calculateLessThan the LeftFirst flag selects which operand is converted first",
 		Run: ruleSpecRelational})
 }
